@@ -464,13 +464,15 @@ def probeAll (cfg : Config) (inuse : List (Bytes × List User)) (d : Defs) : M D
     match findLayer d name with
     | none => throw Fault.panic
     | some l =>
-      if l.state == S_error then pure d else
       let buildroot := buildPath cfg l
       let l := { l with mounts := getMountAndSubmounts d.mounts buildroot }
       let users := match inuse.find? (·.1 == name) with
         | some (_, us) => us
         | none => []
       let l := classifyUsers cfg l users
+      -- (after fix e3cb7aa) a layer in the error state keeps its state, but its mounts and
+      -- users have been recorded
+      if l.state == S_error then pure (setLayer d l) else
       if !Fs.isDir fs buildroot then pure (setLayer d { l with state := S_incomplete }) else
       let haveWork := Fs.isDir fs (workPath cfg l)
       let haveUpper := Fs.isDir fs (upperPath cfg l)
